@@ -22,7 +22,7 @@
 ** own; otherwise the failure is the component's (reported at its own, shorter case) and
 ** the composite aspect is counted as masked.
 **
-** Parameters:  phase=base|range|slice|zip|filter|map|compose|heap
+** Parameters:  phase=base|range|slice|zip|filter|map|compose|heap|history|assign   hmax=N (history: largest size)
 **              kinds=all|array,list,tuple,htuple,table,tree,range   maxn=N  amax=N  rmax=N
 **              zmax=N (zip child length bound)  flmax=N (filter length bound)  cset=small|wide
 */
@@ -1061,6 +1061,409 @@ static void phase_heap(void) {
   npool = 0; { struct node* z = mk(N_ZIP); z->heap = 1; run_case(z); }
 }
 
+/* ==== phase=history: iteration after grow-then-shrink histories of every container kind ======================
+**
+** The grids above build their containers by insertion only.  Here each container is grown to n items and then
+** emptied one removal at a time in an enumerated order (and refilled once), and after EVERY operation:
+** len == number of items the forward walk yields == number the backward walk yields, backward is the exact reverse
+** of forward, the items are exactly the reference model's (in order for sequences, each key once for Table, strictly
+** monotone for Tree), get / mem of every yielded item agree with the model and removed keys are absent.
+*/
+
+#define HMAX 64
+enum { HO_FRONT, HO_BACK, HO_MIDDLE, HO_ASC, HO_DESC, HO_INTER, HO_N };
+static const char* ho_name[] = { "front", "back", "middle", "ascending", "descending", "interleaved" };
+static const char* hkind_name[] = { "array", "list", "tuple", "table", "tree" };
+enum { HK_ARRAY, HK_LIST, HK_TUPLE, HK_TABLE, HK_TREE, HK_N };
+static var hval[HMAX * 56 + 8];          /* raw Int objects, hval[v] has value v (Tuple members, keys) */
+static const char* h_op = "build";
+static int h_kind;
+
+static void h_report(const char* symptom, const char* fmt, ...) {
+  char label[200], detail[900];
+  snprintf(label, sizeof label, "history/%s/%s/%s", hkind_name[h_kind], h_op, symptom);
+  va_list ap; va_start(ap, fmt); vsnprintf(detail, sizeof detail, fmt, ap); va_end(ap);
+  vf_violation(label, NULL, "%s", detail);
+}
+
+/* model: the values present, in sequence order (sequences) or any order (maps) */
+static int64_t hm[HMAX]; static int hmn;
+static int hm_find(int64_t v) { for (int i = 0; i < hmn; i++) if (hm[i] == v) return i; return -1; }
+static void hm_del(int i) { memmove(hm + i, hm + i + 1, (hmn - i - 1) * sizeof hm[0]); hmn--; }
+
+static volatile int hw_n, hw_end; static int64_t hw_v[HMAX + HORIZON + 2]; static var hw_p[HMAX + HORIZON + 2];
+static var hw_exc;
+
+/* walk one direction, reading every item as an Int (under the exception net) */
+static void h_walk(var c, int backward, int horizon) {
+  hw_n = 0; hw_end = END_TERMINAL; hw_exc = NULL;
+  vf.executions++;
+  try {
+    var it = backward ? iter_last(c) : iter_init(c);
+    while (it isnt Terminal) {
+      if (hw_n >= horizon) { hw_end = END_HORIZON; break; }
+      if (it is NULL) { hw_end = END_FOREIGN; break; }
+      hw_p[hw_n] = it; hw_v[hw_n] = c_int(it); hw_n = hw_n + 1;
+      it = backward ? iter_prev(c, it) : iter_next(c, it);
+    }
+  } catch (e) { hw_end = END_EXC; hw_exc = e; }
+}
+
+static int h_check(var c, int64_t universe_lo, int64_t universe_hi, int64_t stride) {
+  int seq = h_kind <= HK_TUPLE;
+  static int64_t fv[HMAX + HORIZON + 2]; static var fp[HMAX + HORIZON + 2]; int fn;
+  vf.states++; vf.evaluations++;
+  var e; uint64_t L = safe_len(c, &e);
+  if (e) { h_report("len-raises", "len raised %s", vf_exc_name(e)); return 1; }
+  h_walk(c, 0, hmn + HORIZON);
+  if (hw_end == END_EXC) { h_report("fwd-raises", "forward walk raised %s after %d items (model has %d)", vf_exc_name(hw_exc), hw_n, hmn); return 1; }
+  if (hw_end != END_TERMINAL) { h_report("fwd-nonterminating", "forward walk still going after %d items, model has %d, len says %" PRIu64, hw_n, hmn, L); return 1; }
+  fn = hw_n; memcpy(fv, hw_v, fn * sizeof fv[0]); memcpy(fp, hw_p, fn * sizeof fp[0]);
+  if ((uint64_t)fn != L) { h_report("len-vs-forward-count", "len=%" PRIu64 " but forward iteration yields %d items (model has %d)", L, fn, hmn); return 1; }
+  if (fn != hmn) { h_report("forward-count-vs-model", "forward iteration yields %d items, len=%" PRIu64 ", the history leaves %d", fn, L, hmn); return 1; }
+  for (int i = 0; i < fn; i++) {
+    if (seq) { if (fv[i] != hm[i]) { h_report("fwd-wrong-item", "item %d of the forward walk is %" PRId64 ", the history leaves %" PRId64 " there", i, fv[i], hm[i]); return 1; } }
+    else {
+      if (hm_find(fv[i]) < 0) { h_report("fwd-ghost-key", "forward walk yields key %" PRId64 " which was removed / never inserted", fv[i]); return 1; }
+      for (int j = 0; j < i; j++) if (fv[j] == fv[i]) { h_report("fwd-duplicate-key", "forward walk yields key %" PRId64 " twice", fv[i]); return 1; }
+      if (h_kind == HK_TREE && i >= 2 && ((fv[i] > fv[i-1]) != (fv[1] > fv[0]))) { h_report("fwd-not-monotone", "tree keys not monotone at position %d", i); return 1; }
+    }
+  }
+  h_walk(c, 1, hmn + HORIZON);
+  if (hw_end == END_EXC) { h_report("bwd-raises", "backward walk raised %s after %d items", vf_exc_name(hw_exc), hw_n); return 1; }
+  if (hw_end != END_TERMINAL) { h_report("bwd-nonterminating", "backward walk still going after %d items, len=%" PRIu64, hw_n, L); return 1; }
+  if ((uint64_t)hw_n != L) { h_report("len-vs-backward-count", "len=%" PRIu64 " but backward iteration yields %d items (forward %d)", L, hw_n, fn); return 1; }
+  for (int i = 0; i < fn; i++) if (hw_p[i] != fp[fn - 1 - i]) { h_report("bwd-not-reverse", "backward walk is not the reverse of the forward walk at position %d (%" PRId64 " vs %" PRId64 ")", i, hw_v[i], fv[fn - 1 - i]); return 1; }
+  /* get / mem of every yielded item; absent keys are absent */
+  const char* volatile sym = NULL; volatile int64_t at = 0;
+  var ge = VF_CATCH({
+    for (int i = 0; i < fn && !sym; i++) {
+      at = fv[i];
+      if (seq) {
+        if (get(c, $I(i)) != fp[i]) sym = "get-not-ith-item";
+        else if (get(c, $I(i - fn)) != fp[i]) sym = "get-negative-not-ith-item";
+        else if (!mem(c, hval[fv[i]])) sym = "mem-false-for-yielded-item";
+      } else {
+        if (!mem(c, fp[i]) || !mem(c, hval[fv[i]])) sym = "mem-false-for-yielded-key";
+        else if (c_int(get(c, hval[fv[i]])) != fv[i] + 1000) sym = "get-wrong-value-for-yielded-key";
+      }
+    }
+    for (int64_t v = universe_lo; v < universe_hi && !sym; v += stride) {
+      at = v;
+      if (hm_find(v) < 0 && mem(c, hval[v])) sym = "mem-true-for-removed-item";
+    }
+  });
+  if (ge) { h_report("get-mem-raises", "get/mem of item %" PRId64 " raised %s", (int64_t)at, vf_exc_name(ge)); return 1; }
+  if (sym) { h_report(sym, "item %" PRId64 ": %s (len=%" PRIu64 ")", (int64_t)at, sym, L); return 1; }
+  return 0;
+}
+
+static int h_add(var c, int64_t v) {
+  h_op = "build";
+  var e = h_kind <= HK_TUPLE ? VF_CATCH(push(c, hval[v])) : VF_CATCH(set(c, hval[v], $I(v + 1000)));
+  vf.transitions++;
+  if (e) { h_report("raises", "insertion of %" PRId64 " raised %s", v, vf_exc_name(e)); return 1; }
+  hm[hmn++] = v;
+  return 0;
+}
+
+/* how: 0 pop, 1 pop_at(pos), 2 rem(value v); returns the exception or NULL (kept out of the history loops: setjmp) */
+static var h_remove(var c, int how, int pos, int64_t v) {
+  if (how == 0) return VF_CATCH(pop(c));
+  if (how == 1) return VF_CATCH(pop_at(c, $I(pos)));
+  return VF_CATCH(rem(c, hval[v]));
+}
+
+static void phase_history(void) {
+  static const int sizes[] = { 5, 6, 11, 12, 23, 24, 54 };
+  static const int strides[] = { 1, 55 };
+  int hmaxn = (int)vf_param_i("hmax", 54);
+  for (size_t i = 0; i < sizeof hval / sizeof hval[0]; i++) hval[i] = new_raw(Int, $I((int64_t)i));
+  for (size_t si = 0; si < sizeof sizes / sizeof sizes[0]; si++) {
+    int n = sizes[si];
+    if (n > hmaxn) continue;
+    for (int k = 0; k < HK_N; k++) for (int st = 0; st < 2; st++) for (int ord = 0; ord < HO_N; ord++) for (int refill = 0; refill < 2; refill++) {
+      int64_t stride = strides[st];
+      if (st == 1 && k <= HK_TUPLE) continue;             /* colliding keys only matter for the maps */
+      if (!kind_on[k == HK_ARRAY ? K_ARRAY : k == HK_LIST ? K_LIST : k == HK_TUPLE ? K_HTUPLE : k == HK_TABLE ? K_TABLE : K_TREE]) continue;
+      char cs[160]; snprintf(cs, sizeof cs, "history kind=%s n=%d stride=%d remove=%s%s", hkind_name[k], n, (int)stride, ho_name[ord], refill ? " then-refill-and-remove-again" : "");
+      if (vf.replay && strcmp(vf.replay, cs) != 0) continue;
+      vf_watchdog(60);
+      vf_set_cur("%s", cs);
+      h_kind = k; hmn = 0; snprintf(phasebuf, sizeof phasebuf, "history/%s", hkind_name[k]); vf.phase = phasebuf;
+      var c = k == HK_ARRAY ? (var)new_raw(Array, Int) : k == HK_LIST ? (var)new_raw(List, Int) : k == HK_TUPLE ? (var)new_raw(Tuple)
+            : k == HK_TABLE ? (var)new_raw(Table, Int, Int) : (var)new_raw(Tree, Int, Int);
+      int bad = 0;
+      h_op = "build"; bad = h_check(c, 0, n * stride, stride);
+      for (int round = 0; round <= refill && !bad; round++) {
+        for (int i = 0; i < n && !bad; i++) { bad = h_add(c, i * stride) || h_check(c, 0, n * stride, stride); }
+        for (int step = 0; step < n && !bad; step++) {
+          /* which item goes: positions refer to the current forward order, orders by value to the model */
+          int64_t v = 0; int pos = -1;
+          switch (ord) {
+          case HO_FRONT: pos = 0; break;
+          case HO_BACK: pos = hmn - 1; break;
+          case HO_MIDDLE: pos = hmn / 2; break;
+          case HO_ASC: v = step * stride; break;
+          case HO_DESC: v = (n - 1 - step) * stride; break;
+          default: v = ((step & 1) ? n - 1 - step / 2 : step / 2) * stride; break;
+          }
+          var e;
+          if (pos >= 0 && k <= HK_TUPLE) {
+            h_op = ord == HO_BACK ? "pop" : "pop_at";
+            v = hm[pos];
+            e = h_remove(c, ord == HO_BACK ? 0 : 1, pos, v);
+          } else {
+            if (pos >= 0) {
+              /* the key currently first / last / in the middle of the container's own forward order */
+              h_walk(c, 0, hmn + HORIZON);
+              if (hw_end != END_TERMINAL || hw_n != hmn) { h_report("fwd-count", "forward walk yields %d items, model has %d", hw_n, hmn); bad = 1; break; }
+              v = hw_v[pos];
+            }
+            h_op = "rem";
+            e = h_remove(c, 2, pos, v);
+          }
+          vf.transitions++;
+          if (e) { h_report("raises", "removing %" PRId64 " raised %s", v, vf_exc_name(e)); bad = 1; break; }
+          int mi = (pos >= 0 && k <= HK_TUPLE) ? pos : hm_find(v);
+          if (mi < 0) { h_report("model", "harness error: %" PRId64 " not in the model", v); bad = 1; break; }
+          hm_del(mi);
+          bad = h_check(c, 0, n * stride, stride);
+        }
+      }
+      if ((uint64_t)n > vf.max_depth) vf.max_depth = n;
+      ncases++;
+      if (n >= 11) vf.nontrivial++;
+      if (vf_want_sample()) vf_sample("%s", cs);
+      del_raw(c);
+    }
+  }
+}
+
+/* ==== phase=assign: assign(a, b) / copy(b) of generators and views must give an independent iterator =============
+**
+** For Range, Slice, Zip, Filter, Map (heap objects made with new(); source b on the heap or a stack macro object):
+** after assign(a, b) - and for Filter / Map also c = copy(b) - the target walks like b in both directions and has
+** b's len; nested iteration over target and source yields len*len pairs with the right values; walking target,
+** source, target again gives the same items each time; after del(source) every item the target hands out is still a
+** live object with the right value; a target assigned from a stack object inside a helper that has returned still
+** walks correctly.  (copy of Range / Slice / Zip raises on the current tree and is not part of the grid.)
+*/
+
+enum { AK_RANGE, AK_SLICE, AK_ZIP, AK_FILTER, AK_MAP, AK_N };
+static const char* ak_name[] = { "range", "slice", "zip", "filter", "map" };
+static var a_list, a_arr;               /* shared underlying containers (stateless cursors) */
+static var a_img[64];
+static var a_mapf(var x) { return a_img[c_int(x) & 63]; }
+static unsigned a_mask;
+static var a_pred(var x) { return ((a_mask >> (c_int(x) & 7)) & 1) ? x : NULL; }
+static var a_fpred, a_fmap;             /* Function objects living in phase_assign's frame */
+
+struct aparam { int kind; int p[4]; };   /* range: ar,start,stop,step; slice: start,stop,step (99 = omitted); zip: n,m; filter: mask; map: - */
+static int64_t ae[64]; static int aen;   /* expected item codes of the parameters */
+
+static int64_t a_code(int kind, var it) {
+  if (kind == AK_ZIP) return c_int(get(it, $I(0))) * 100 + c_int(get(it, $I(1)));
+  return c_int(it);
+}
+
+static void a_expect(struct aparam* q) {
+  aen = 0;
+  switch (q->kind) {
+  case AK_RANGE: {
+    int64_t st = q->p[1], sp = q->p[2], se = q->p[3];
+    if (se > 0) for (int64_t v = st; v < sp; v += se) ae[aen++] = v;
+    if (se < 0) for (int64_t v = sp - 1; v >= st; v += se) ae[aen++] = v;
+    break; }
+  case AK_SLICE: {
+    int64_t n = 5, st = q->p[0] == 99 ? 0 : q->p[0], sp = q->p[1] == 99 ? n : q->p[1], se = q->p[2];
+    if (se > 0) for (int64_t i = st; i < sp; i += se) ae[aen++] = i;
+    if (se < 0) for (int64_t i = sp - 1; i >= st; i += se) ae[aen++] = i;
+    break; }
+  case AK_ZIP: { int m = q->p[0] < q->p[1] ? q->p[0] : q->p[1]; for (int i = 0; i < m; i++) ae[aen++] = i * 100 + i; break; }
+  case AK_FILTER: for (int i = 0; i < 5; i++) if ((q->p[0] >> i) & 1) ae[aen++] = i; break;
+  case AK_MAP: for (int i = 0; i < 5; i++) ae[aen++] = i + 1000; break;
+  }
+}
+
+static var a_zl[4], a_za[4];            /* lists / arrays of length 0..3 for zips */
+static int a_skip_bwd;                  /* Zip of unequal lengths backwards is the recorded finding D17: not walked here */
+
+/* make the object described by q on the heap */
+static var a_make(struct aparam* q) {
+  switch (q->kind) {
+  case AK_RANGE: return new(Range, $I(q->p[1]), $I(q->p[2]), $I(q->p[3]));
+  case AK_SLICE: return new(Slice, a_list, q->p[0] == 99 ? _ : (var)$I(q->p[0]), q->p[1] == 99 ? _ : (var)$I(q->p[1]), $I(q->p[2]));
+  case AK_ZIP: return new(Zip, a_zl[q->p[0]], a_za[q->p[1]]);
+  case AK_FILTER: return new(Filter, a_list, a_fpred);
+  default: return new(Map, a_list, a_fmap);
+  }
+}
+
+
+/* assign from a stack object inside a frame that returns before the target is used */
+static void __attribute__((noinline)) a_assign_from_stack(var target, struct aparam* q) {
+  switch (q->kind) {
+  case AK_RANGE: assign(target, range($I(q->p[1]), $I(q->p[2]), $I(q->p[3]))); break;
+  case AK_SLICE: assign(target, slice(a_list, q->p[0] == 99 ? _ : (var)$I(q->p[0]), q->p[1] == 99 ? _ : (var)$I(q->p[1]), $I(q->p[2]))); break;
+  case AK_ZIP: assign(target, zip(a_zl[q->p[0]], a_za[q->p[1]])); break;
+  case AK_FILTER: assign(target, filter(a_list, a_fpred)); break;
+  default: assign(target, map(a_list, a_fmap)); break;
+  }
+}
+
+static void __attribute__((noinline)) a_scribble(void) {
+  volatile char junk[4096];
+  for (size_t i = 0; i < sizeof junk; i++) junk[i] = (char)0x5a;
+  (void)junk[17];
+}
+
+static int a_kind; static const char* a_src; static const char* a_scen;
+static void a_report(const char* symptom, const char* fmt, ...) {
+  char label[200], detail[900];
+  snprintf(label, sizeof label, "assign/%s/%s/%s/%s", ak_name[a_kind], a_src, a_scen, symptom);
+  va_list ap; va_start(ap, fmt); vsnprintf(detail, sizeof detail, fmt, ap); va_end(ap);
+  vf_violation(label, NULL, "%s", detail);
+}
+
+/* one directed walk compared with the expected codes; returns 1 on a violation */
+static volatile int aw_n; static int64_t aw_v[80]; static const char* volatile aw_bad;
+static int a_walk(var x, int backward, const char* who) {
+  if (backward && a_skip_bwd) return 0;
+  aw_n = 0; aw_bad = NULL; vf.executions++;
+  var e = VF_CATCH({
+    var it = backward ? iter_last(x) : iter_init(x);
+    while (it isnt Terminal) {
+      if (aw_n >= aen + HORIZON) { aw_bad = "nonterminating"; break; }
+      if (it is NULL) { aw_bad = "null-item"; break; }
+      aw_v[aw_n] = a_code(a_kind, it); aw_n = aw_n + 1;
+      it = backward ? iter_prev(x, it) : iter_next(x, it);
+    }
+  });
+  if (e) { a_report("raises", "%s %s walk raised %s after %d items (an item it handed out is not a live object?)", who, backward ? "backward" : "forward", vf_exc_name(e), aw_n); return 1; }
+  if (aw_bad) { a_report(aw_bad, "%s %s walk: %s after %d items, expected %d", who, backward ? "backward" : "forward", aw_bad, aw_n, aen); return 1; }
+  if (aw_n != aen) { a_report(aw_n > aen ? "too-many" : "too-few", "%s %s walk yields %d items, expected %d", who, backward ? "backward" : "forward", aw_n, aen); return 1; }
+  for (int i = 0; i < aen; i++) if (aw_v[i] != ae[backward ? aen - 1 - i : i]) { a_report("wrong-item", "%s %s walk: item %d is %" PRId64 ", expected %" PRId64, who, backward ? "backward" : "forward", i, aw_v[i], ae[backward ? aen - 1 - i : i]); return 1; }
+  return 0;
+}
+
+static int a_len(var x, const char* who) {
+  if (a_kind == AK_FILTER) return 0;
+  var e; uint64_t l = safe_len(x, &e);
+  if (e) { a_report("len-raises", "%s: len raised %s", who, vf_exc_name(e)); return 1; }
+  if (l != (uint64_t)aen) { a_report("len", "%s: len=%" PRIu64 ", expected %d", who, l, aen); return 1; }
+  return 0;
+}
+
+/* for x in outer { for y in inner } must give |outer| * |inner| pairs with the right values */
+static int a_nested(var outer, var inner, const char* who) {
+  static volatile int no, pairs; static const char* volatile bad; static volatile int64_t gx, gy, wx, wy;
+  no = 0; pairs = 0; bad = NULL; vf.executions++;
+  var e = VF_CATCH({
+    for (var x = iter_init(outer); x isnt Terminal && !bad; x = iter_next(outer, x)) {
+      if (no >= aen + HORIZON) { bad = "nonterminating"; break; }
+      int ni = 0;
+      for (var y = iter_init(inner); y isnt Terminal; y = iter_next(inner, y)) {
+        if (ni >= aen + HORIZON) { bad = "nonterminating"; break; }
+        int64_t cy = a_code(a_kind, y);
+        if (ni >= aen || cy != ae[ni]) { bad = "inner-wrong-item"; gy = cy; wy = ni < aen ? ae[ni] : -1; break; }
+        int64_t cx = a_code(a_kind, x);          /* the outer item must still be what it was */
+        if (no >= aen || cx != ae[no]) { bad = "outer-item-clobbered"; gx = cx; wx = no < aen ? ae[no] : -1; break; }
+        ni++; pairs = pairs + 1;
+      }
+      if (!bad && ni != aen) { bad = "inner-count"; gy = ni; }
+      no = no + 1;
+    }
+  });
+  if (e) { a_report("nested-raises", "%s: nested iteration raised %s after %d pairs", who, vf_exc_name(e), pairs); return 1; }
+  if (!bad && (no != aen || pairs != aen * aen)) bad = "pair-count";
+  if (bad) { a_report(bad, "%s: nested iteration gave %d outer steps and %d pairs, expected %d and %d (got %" PRId64 "/%" PRId64 ", expected %" PRId64 "/%" PRId64 ")", who, no, pairs, aen, aen * aen, (int64_t)gx, (int64_t)gy, (int64_t)wx, (int64_t)wy); return 1; }
+  return 0;
+}
+
+static var a_new(struct aparam* q) { return a_make(q); }
+
+static void a_case(struct aparam* q, struct aparam* other, int src, int scen) {
+  /* src: 0 heap source, 1 stack source in a returned frame, 2 copy(heap source) (Filter/Map) */
+  static const char* srcn[] = { "heap-source", "stack-source", "copy" };
+  static const char* scn[] = { "walks", "nested", "sequential", "del-source" };
+  char cs[200];
+  snprintf(cs, sizeof cs, "assign kind=%s params=%d,%d,%d,%d source=%s scenario=%s", ak_name[q->kind], q->p[0], q->p[1], q->p[2], q->p[3], srcn[src], scn[scen]);
+  if (vf.replay && strcmp(vf.replay, cs) != 0) return;
+  if (src == 1 && scen != 0) return;                 /* a stack source is gone after the helper: only the target is walked */
+  if ((ncases++ & 63) == 0) vf_watchdog(60);
+  vf_set_cur("%s", cs);
+  a_kind = q->kind; a_src = srcn[src]; a_scen = scn[scen];
+  snprintf(phasebuf, sizeof phasebuf, "assign/%s/%s/%s", ak_name[a_kind], a_src, a_scen); vf.phase = phasebuf;
+  if (q->kind == AK_FILTER) a_mask = q->p[0];
+  a_skip_bwd = q->kind == AK_ZIP && q->p[0] != q->p[1];
+  a_expect(q);
+  vf.evaluations++; if (aen >= 2) vf.nontrivial++;
+  volatile var a = NULL; volatile var b = NULL;
+  int bad = 0;
+  var e = VF_CATCH({
+    if (src == 2) { b = a_new(q); a = copy((var)b); }
+    else {
+      a = a_new(other);                              /* a target that was something else before */
+      if (q->kind == AK_FILTER) a_mask = q->p[0];
+      if (src == 0) { b = a_new(q); assign((var)a, (var)b); }
+      else { a_assign_from_stack((var)a, q); a_scribble(); }
+    }
+  });
+  if (e) { a_report("construct-raises", "new / assign / copy raised %s", vf_exc_name(e)); return; }
+  switch (scen) {
+  case 0:
+    bad = a_len((var)a, "target") || a_walk((var)a, 0, "target") || a_walk((var)a, 1, "target");
+    if (!bad && b) bad = a_len((var)b, "source") || a_walk((var)b, 0, "source after the assignment") || a_walk((var)b, 1, "source after the assignment");
+    break;
+  case 1:
+    bad = a_nested((var)a, (var)b, "for x in target { for y in source }") || a_nested((var)b, (var)a, "for x in source { for y in target }");
+    break;
+  case 2:
+    bad = a_walk((var)a, 0, "target (1st)") || a_walk((var)b, 0, "source") || a_walk((var)a, 0, "target (2nd)") || a_walk((var)b, 1, "source") || a_walk((var)a, 1, "target (3rd)");
+    break;
+  case 3: {
+    var de = VF_CATCH(del((var)b)); b = NULL;
+    if (de) { a_report("del-raises", "del(source) raised %s", vf_exc_name(de)); bad = 1; break; }
+    /* let the allocator reuse what was released */
+    var junk[6]; for (int i = 0; i < 6; i++) junk[i] = new(Int, $I(777000 + i));
+    bad = a_len((var)a, "target after del(source)") || a_walk((var)a, 0, "target after del(source)") || a_walk((var)a, 1, "target after del(source)");
+    /* objects allocated after the del must be untouched by the target's walks (a cursor living in a released block would alias them) */
+    for (int i = 0; i < 6 && !bad; i++) if (((struct Int*)junk[i])->val != 777000 + i) {
+      a_report("unrelated-object-clobbered", "an Int allocated after del(source) changed from %d to %" PRId64 " while the target was walked: the target's cursor lives in released memory", 777000 + i, ((struct Int*)junk[i])->val);
+      bad = 1;
+    }
+    for (int i = 0; i < 6; i++) del(junk[i]);
+    break; }
+  }
+  var ce = VF_CATCH({ if (a) del((var)a); if (b) del((var)b); });
+  if (ce && !bad) a_report("del-raises", "deleting target and source afterwards raised %s", vf_exc_name(ce));
+  if (vf_want_sample()) vf_sample("%s", cs);
+}
+
+static void phase_assign(void) {
+  a_fpred = $(Function, a_pred); a_fmap = $(Function, a_mapf);
+  a_list = new_raw(List, Int); a_arr = new_raw(Array, Int);
+  for (int i = 0; i < 5; i++) { push(a_list, $I(i)); push(a_arr, $I(i)); }
+  for (int i = 0; i < 64; i++) a_img[i] = new_raw(Int, $I(i + 1000));
+  for (int n = 0; n < 4; n++) { a_zl[n] = new_raw(List, Int); a_za[n] = new_raw(Array, Int); for (int i = 0; i < n; i++) { push(a_zl[n], $I(i)); push(a_za[n], $I(i)); } }
+  static struct aparam P[96]; int np = 0;
+  /* Range: every (start, stop, step) of a small grid */
+  static const int rs[][3] = { {0,0,1}, {0,1,1}, {0,3,1}, {0,5,1}, {1,5,2}, {0,5,2}, {0,5,-1}, {0,5,-2}, {-2,3,1}, {2,9,3}, {0,7,3} };
+  for (size_t i = 0; i < sizeof rs / sizeof rs[0]; i++) { struct aparam q = { AK_RANGE, { 3, rs[i][0], rs[i][1], rs[i][2] } }; P[np++] = q; }
+  static const int ss[][3] = { {99,99,1}, {1,4,1}, {99,99,2}, {1,99,2}, {99,99,-1}, {99,99,-2}, {0,0,1}, {99,3,1}, {2,99,1} };
+  for (size_t i = 0; i < sizeof ss / sizeof ss[0]; i++) { struct aparam q = { AK_SLICE, { ss[i][0], ss[i][1], ss[i][2], 0 } }; P[np++] = q; }
+  for (int n = 0; n < 4; n++) for (int m = 0; m < 4; m++) { struct aparam q = { AK_ZIP, { n, m, 0, 0 } }; P[np++] = q; }
+  static const int fm[] = { 0x00, 0x1f, 0x0a, 0x15, 0x01, 0x10 };
+  for (size_t i = 0; i < sizeof fm / sizeof fm[0]; i++) { struct aparam q = { AK_FILTER, { fm[i], 0, 0, 0 } }; P[np++] = q; }
+  { struct aparam q = { AK_MAP, { 0, 0, 0, 0 } }; P[np++] = q; }
+  struct aparam other[AK_N] = { { AK_RANGE, { 3, 0, 2, 1 } }, { AK_SLICE, { 3, 4, 1, 0 } }, { AK_ZIP, { 1, 2, 0, 0 } }, { AK_FILTER, { 0x04, 0, 0, 0 } }, { AK_MAP, { 0, 0, 0, 0 } } };
+  for (int scen = 0; scen < 4; scen++) for (int src = 0; src < 3; src++) for (int i = 0; i < np; i++) {
+    if (src == 2 && P[i].kind != AK_FILTER && P[i].kind != AK_MAP) continue;   /* copy of Range/Slice/Zip raises on this tree */
+    a_case(&P[i], &other[P[i].kind], src, scen);
+  }
+}
+
 int main(int argc, char** argv) {
   vf_init(argc, argv);
   vf_set_init(&outcomes, 4096);
@@ -1092,6 +1495,8 @@ int main(int argc, char** argv) {
   else if (strcmp(ph, "map") == 0) phase_map(0);
   else if (strcmp(ph, "compose") == 0) phase_compose();
   else if (strcmp(ph, "heap") == 0) phase_heap();
+  else if (strcmp(ph, "history") == 0) phase_history();
+  else if (strcmp(ph, "assign") == 0) phase_assign();
   else { fprintf(stderr, "h_iter: unknown phase %s\n", ph); _exit(2); }
   alarm(0);
   vf_extra("judged_aspects", "%" PRIu64, judged_aspects);
